@@ -136,6 +136,11 @@ def spec_param(param):
 
 def rand_for(r):
     param = r.choice(["a,b,c", "fee, fie , foe", "3", "1", "2", "0", "x,y", " 2 ", ",p,q,", "<<<Opt=u,v>>>", "<<<Tag=1,2,3>>>", "<<<TagB>>>", "<<<Thr=2>>>"])
+    if r.random() < 0.3:
+        # the same user tag with another default, or without one; a default spelled like a collected tag's name
+        # (`do_user_tags` shares the defaults of FOR tags over all blocks of all files)
+        param = r.choice(["<<<Opt=w,x,y>>>", "<<<Opt>>>", "<<<Tag=2>>>", "<<<Tag>>>", "<<<Thr=1>>>", "<<<Thr>>>", "<<<TagB=q,r>>>",
+                          "<<<7=1,2>>>", "<<<Thr=7>>>", "<<<Opt=Tag>>>"])
     tags = ["EACH", "each", "NUM", "ALPH"]
     body = [rand_line(r, tags, 0.9, 2, user=False) for _ in range(r.randint(0, 3))]
     if r.random() < 0.4:
@@ -167,7 +172,16 @@ def rand_template(r, profile="c16", nfiles=None, rich_ok=True):
                 items.append(rand_if(r))
             elif profile in ("c17", "mixed"):
                 items.append(rand_for(r))
-                if r.random() < 0.25:
+                f1 = items[-1]
+                if f1["sparam"].get("t") == "tag" and r.random() < 0.5:
+                    # another loop over the same user tag, with another default or none (the defaults of FOR tags are shared)
+                    f2 = rand_for(r)
+                    f2["param"] = "<<<%s%s>>>" % (f1["sparam"]["name"], r.choice(["", "=9,8", "=2", "=k,l,m", "=" + f1["sparam"]["name"]]))
+                    f2["sparam"] = spec_param(f2["param"])
+                    if r.random() < 0.5:
+                        items.append(rand_line(r, GLOBAL_TAGS, 0.4, 1))
+                    items.append(f2)
+                elif r.random() < 0.25:
                     # a second loop right behind, possibly one without usable arguments
                     f2 = rand_for(r)
                     if r.random() < 0.5:
